@@ -21,7 +21,7 @@ RULE = (
     "canonical JSON of the spec."
 )
 ASSUMPTIONS = [
-    "'or finished' cannot be exercised: a component cannot report FINISHED through Component.update",
+    "'or finished': Component.update overwrites a FINISHED status set inside _update with UPDATED, so a finished component keeps being scheduled; a fifth of the specs contain a model that reports FINISHED from some update on - the run must complete as usual",
     "termination is decided by deterministic counters (update bound derived from the spec), not by wall clock",
 ]
 
@@ -56,6 +56,12 @@ def spec_st(draw, deep=False, chains=False):
     elif mode == "off":
         spec["end"] = draw(st.integers(1, 40))
     spec["end_mode"] = mode
+    # a component may report FINISHED from one of its updates (documented status protocol): the run still has to
+    # return normally with the life cycles complete
+    if draw(st.integers(0, 4)) == 0:
+        c = draw(st.sampled_from(models))
+        c["finish_after"] = draw(st.integers(1, 6))
+        spec["excluded"] = list(spec.get("excluded", [])) + ["info:component-reports-finished"]
     return spec
 
 
